@@ -70,8 +70,8 @@ struct compute_vec_div<L, T, Q, true> : public compute_vec_div<L, T, Q, false>
 	{
 		GLM_FUNC_QUALIFIER vec<L, float, Q> operator ()()  const
 		{
-			// a swizzle that names x and y only may belong to an aligned vec2 (8 bytes): load no more than that
-			__m128 data = (E0 < 2 && E1 < 2 && E2 < 2 && E3 < 2) ? _mm_castpd_ps(_mm_load_sd(reinterpret_cast<double const*>(&this->_buffer))) : *reinterpret_cast<__m128 const*>(&this->_buffer);
+			// a swizzle that names x and y only may belong to an aligned vec2 (8 bytes): load no more than that (only the first L indices are names, the others are fillers)
+			__m128 data = (E0 < 2 && E1 < 2 && (L < 3 || E2 < 2) && (L < 4 || E3 < 2)) ? _mm_castpd_ps(_mm_load_sd(reinterpret_cast<double const*>(&this->_buffer))) : *reinterpret_cast<__m128 const*>(&this->_buffer);
 
 			vec<L, float, Q> Result;
 #			if GLM_ARCH & GLM_ARCH_AVX_BIT
@@ -97,7 +97,7 @@ struct compute_vec_div<L, T, Q, true> : public compute_vec_div<L, T, Q, false>
 	{
 		GLM_FUNC_QUALIFIER vec<L, int, Q> operator ()()  const
 		{
-			__m128i data = (E0 < 2 && E1 < 2 && E2 < 2 && E3 < 2) ? _mm_loadl_epi64(reinterpret_cast<__m128i const*>(&this->_buffer)) : *reinterpret_cast<__m128i const*>(&this->_buffer);
+			__m128i data = (E0 < 2 && E1 < 2 && (L < 3 || E2 < 2) && (L < 4 || E3 < 2)) ? _mm_loadl_epi64(reinterpret_cast<__m128i const*>(&this->_buffer)) : *reinterpret_cast<__m128i const*>(&this->_buffer);
 
 			vec<L, int, Q> Result;
 			Result.data = _mm_shuffle_epi32(data, _MM_SHUFFLE(E3, E2, E1, E0));
@@ -110,7 +110,7 @@ struct compute_vec_div<L, T, Q, true> : public compute_vec_div<L, T, Q, false>
 	{
 		GLM_FUNC_QUALIFIER vec<L, uint, Q> operator ()()  const
 		{
-			__m128i data = (E0 < 2 && E1 < 2 && E2 < 2 && E3 < 2) ? _mm_loadl_epi64(reinterpret_cast<__m128i const*>(&this->_buffer)) : *reinterpret_cast<__m128i const*>(&this->_buffer);
+			__m128i data = (E0 < 2 && E1 < 2 && (L < 3 || E2 < 2) && (L < 4 || E3 < 2)) ? _mm_loadl_epi64(reinterpret_cast<__m128i const*>(&this->_buffer)) : *reinterpret_cast<__m128i const*>(&this->_buffer);
 
 			vec<L, uint, Q> Result;
 			Result.data = _mm_shuffle_epi32(data, _MM_SHUFFLE(E3, E2, E1, E0));
